@@ -47,8 +47,8 @@ structure LetterClass (L : Char → Bool) : Prop where
   tick : L '`' = false
   bslash : L '\\' = false
 
-/-- the escapable characters of the configuration are not letters (and `STX` is not escapable) -/
-def EscNotLetter (L : Char → Bool) (cfg : Cfg) : Prop := ∀ c ∈ cfg.esc, L c = false ∧ c ≠ STX
+/-- the escapable characters of the configuration are not letters (and `STX`, `&` are not escapable) -/
+def EscNotLetter (L : Char → Bool) (cfg : Cfg) : Prop := ∀ c ∈ cfg.esc, L c = false ∧ c ≠ STX ∧ c ≠ '&'
 
 /-! ### text content of elements -/
 
@@ -126,10 +126,13 @@ def lettersK (L : Char → Bool) (stash : List StashItem) (ns : List Node) : Str
 /-- characters of the C06 domain -/
 def charOk (c : Char) : Bool := c != '[' && c != '&' && c != '<' && c != '>'
 
-/-- after an `STX`: `ddd ETX` with `chr ddd` defined and not a letter -/
+/-- what an escape token may stand for: not a letter, not `&` (which the serializer would not leave alone), not `STX` -/
+def tokChar (L : Char → Bool) (c : Char) : Bool := !L c && c != '&' && c != STX
+
+/-- after an `STX`: `ddd ETX` with `chr ddd` defined and acceptable (`tokChar`) -/
 def escTok (L : Char → Bool) (r : Str) : Bool :=
   match phAt r with
-  | some (id, _) => decide (decToNat id < 0x110000) && !L (Char.ofNat (decToNat id))
+  | some (id, _) => decide (decToNat id < 0x110000) && tokChar L (Char.ofNat (decToNat id))
   | none => false
 
 /-- after an `STX`: `klzzwxh:NNNN ETX` with a canonical id below `n` -/
@@ -153,9 +156,9 @@ def kidsOk (L : Char → Bool) (n : Nat) : List Node → Bool
 end
 
 mutual
-/-- no text of the element or of its descendants is an `AtomicString` -/
+/-- no text of the element or of its descendants is an `AtomicString`, and none of them has an attribute -/
 def nonAtomic : Node → Bool
-  | ⟨_, _, _, ta, children, _, _⟩ => !ta && kidsNonAtomic children
+  | ⟨_, attrs, _, ta, children, _, _⟩ => !ta && attrs.isEmpty && kidsNonAtomic children
 def kidsNonAtomic : List Node → Bool
   | [] => true
   | c :: r => nonAtomic c && kidsNonAtomic r
@@ -165,7 +168,7 @@ end
     earlier entries and whose descendants have ordinary (non-atomic) texts -/
 def itemOk (L : Char → Bool) (i : Nat) : StashItem → Bool
   | .str s => ok L 0 s
-  | .node nd => nodeOk L i nd && nd.tail.isNone && kidsNonAtomic nd.children
+  | .node nd => nodeOk L i nd && nd.tail.isNone && nd.attrs.isEmpty && kidsNonAtomic nd.children
 
 def stashOkAux (L : Char → Bool) : List StashItem → Nat → Bool
   | [], _ => true
@@ -179,9 +182,10 @@ def stashOk (L : Char → Bool) (stash : List StashItem) : Bool := stashOkAux L 
 def strClean (s : Str) : Bool := s.all (fun c => charOk c && c != STX)
 
 mutual
-/-- every text and tail of the tree is in the domain -/
+/-- every text and tail of the tree is in the domain, and no element has an attribute -/
 def treeClean : Node → Bool
-  | ⟨_, _, text, _, children, tail, _⟩ => strClean (text.getD []) && strClean (tail.getD []) && kidsClean children
+  | ⟨_, attrs, text, _, children, tail, _⟩ =>
+    strClean (text.getD []) && strClean (tail.getD []) && kidsClean children && attrs.isEmpty
 def kidsClean : List Node → Bool
   | [] => true
   | c :: r => treeClean c && kidsClean r
